@@ -1,4 +1,5 @@
 import Fdo.Proto.ServerProofs
+import Fdo.Facts
 /-
 C02 — the owner serves only a peer that proved the device key for this session.
 
@@ -296,5 +297,20 @@ example : (run (init [1, 2] false 2) [
     { tok := .sess 1, typ := 64, dev := 2, nonceOf := some 1, signer := some 1, xb := 8 },
     { tok := .sess 1, typ := 70, enc := none, nonceOf := some 1 }]).2 =
     [(61, []), (61, []), (255, []), (255, []), (255, [])] := by decide
+
+
+/-- **What the source does, in which order** (regenerated call-order facts of
+`TO2Server.setupDevice` and `Handler.handleRequest`): the device key is taken from the voucher, the
+token is verified, the session nonce is fetched and two comparisons (nonce, UEID) are made — all
+before the key exchange is completed (`SetParameter`) and before the replacement credential is
+chosen; requests 66–70 are decrypted under the session's keys before they reach the responder. -/
+theorem code_facts :
+    Fdo.Facts.allBefore "TO2Server.setupDevice" ["Voucher", "DevicePublicKey", "Verify", "ProveDeviceNonce", "Equal"] "SetParameter" = true ∧
+    Fdo.Facts.before "TO2Server.setupDevice" "DevicePublicKey" "Verify" = true ∧
+    Fdo.Facts.before "TO2Server.setupDevice" "SetParameter" "replacementCredential" = true ∧
+    Fdo.Facts.before "TO2Server.setupDevice" "SetParameter" "Sign" = true ∧
+    Fdo.Facts.atLeast "TO2Server.setupDevice" "Equal" 2 = true ∧
+    Fdo.Facts.before "Handler.handleRequest" "CryptSession" "Decrypt" = true ∧
+    Fdo.Facts.before "Handler.handleRequest" "Decrypt" "writeResponse" = true := by decide +kernel
 
 end Fdo.Props.C02
